@@ -698,7 +698,7 @@ class CDSInterval(AbstractFeatureInterval):
             offset += self._calculate_frame_offset(relative_loc, loc_on_chrom)
             return chunk_relative_cleaned_location, offset
         else:
-            offset += self._calculate_frame_offset(loc, relative_loc)
+            offset = (offset + self._calculate_frame_offset(loc, relative_loc)) % 3
             return relative_loc, offset
 
     @lru_cache(maxsize=20)
